@@ -33,6 +33,58 @@ CLAIMED = {
              "serialising the real expression), integer-only test data."),
 }
 
+CLAIMED.update({
+    "C01": dict(
+        technique="Lean 4 theorems (lowering rules; kernel model: verified static check => schedule independence) + "
+                  "translation validation of the real loopy kernel in the Lean kernel model + execution via loopy's C target",
+        text="Proved (model): every modelled lowering rule evaluates pointwise to NumPy's element for all ranks/shapes/"
+             "parameters (stage A, shared with C02); kernel-level theorems of PtProofs/C01.lean as listed in the evidence "
+             "(those present in the build are audited each run). Tie: for seeded programs over the whole public API the "
+             "real generate_loopy kernel is read back and (i) statically checked and executed by the Lean kernel model "
+             "(list order and another dependency-respecting order), (ii) interpreted by an independent Python "
+             "interpreter in random topological orders of its depends_on graph, (iii) compiled with loopy's C target + "
+             "gcc and executed; all compared with the reference evaluator (NumPy per node + pointwise index-lambda "
+             "interpreter); OpenCL device code generation (default target) must succeed; declared shapes/dtypes vs "
+             "results; output-order independence (values; text for distinct outputs). Partial: loopy's pipeline, gcc, "
+             "libm, floating point and hand-written loopy kernels are executed, not verified.",
+        design_ref="§5 C01",
+        note="Modelled not verified: loopy's instruction semantics (any order consistent with depends_on; an iname is one "
+             "loop shared by the instructions naming it; reductions are folds; substitution rules are macros). cexec "
+             "re-declares global temporaries private, drops unused kernel arguments and registers INFINITY/HUGE_VAL/"
+             "LONG_MIN manglers + limits.h for loopy's C target (executor work-arounds)."),
+    "C07": dict(
+        technique="metamorphic correspondence through the real pipeline (tagged vs untagged builds of one program) on top of "
+                  "C01's Lean kernel/lowering theorems",
+        text="Same theorems as C01 (the kernel model has no notion of tags: denotation is tag-free by construction). Tie: every "
+             "generated program is rebuilt with identical structure under several tag assignments (ImplStored, ImplInlined, "
+             "ImplSubstitution, PrefixNamed, fresh Named, user array/axis/reduction tags on arbitrary node subsets); all "
+             "variants must keep output names/shapes/dtypes, generate code, and compute the untagged and the reference "
+             "values. Partial as C01.",
+        design_ref="§5 C07", note="As C01."),
+    "C11": dict(
+        technique="Lean 4 theorems: every access of every modelled lowering rule is in bounds (all sizes) + Lean-evaluated "
+                  "access lists of real index lambdas + bounds-checked interpretation of real kernels + loopy's ISL check as search",
+        text="Proved (model): every index a normalised slice visits lies in [0,n); unravel results are in bounds; the "
+             "per-rule access theorems of PtProofs/C11.lean present in the build (audited each run). Tie: (a) every real "
+             "index lambda of C02's exhaustive scope is evaluated by the Lean evaluator which lists each subscript actually "
+             "evaluated (only taken branches of conditionals): none affine may be out of bounds; (b) real kernels of "
+             "generated programs (concrete shapes) and of symbolic programs at all size valuations 0..4/0..6 are interpreted "
+             "instruction by instruction with bounds checks on reads and writes; (c) loopy's ISL access-range check is "
+             "switched back on (search tool). Partial: per-kernel symbolic decision is ISL's; hand-written loopy kernels out of scope.",
+        design_ref="§5 C11", note="Data-dependent indices excluded as the statement says. Kernel read-back assumes pytato's kernel shape."),
+    "C16": dict(
+        technique="Lean 4 theorems: affine equality / sign decisions are exact for all valuations + exhaustive/seeded "
+                  "correspondence with the real ISL-based decisions + symbolic shape inference and size-generic kernels vs NumPy",
+        text="Proved (model): affEq d1 d2 = true <-> for all non-negative valuations d1 = d2; isNonNeg <-> for all valuations >= 0; "
+             "normalisation preserves value and yields one entry per parameter; broadcast merge decision sound at every valuation. "
+             "Tie: all pairs over one parameter (coefficients in [-3,3], exhaustive) and seeded pairs over 2-3 parameters, built "
+             "as pytato expressions in four syntactic forms: real are_shape_components_equal/_is_non_negative/_is_non_positive "
+             "vs the Lean model (fed the *structure* of the real expression) vs an independent grid oracle; programs over "
+             "symbolic-shape placeholders: Array.shape at sizes 1..6 vs NumPy; one compiled kernel per program executed at "
+             "several sizes vs the reference. Partial: ISL is modelled by its closed form, compared on the box.",
+        design_ref="§5 C16", note="ISL modelled; loopy C target executes."),
+})
+
 NOT_YET = "check not built yet in this revision (see DESIGN.md §10 build order); not claimed"
 
 ALL = [f"C{n:02d}" for n in range(1, 21)]
